@@ -376,32 +376,15 @@ class VerusUnit:
 
 
 def _verus_fn_spans(text):
-    """[(fn name, first line, last line)] by brace matching from each `fn name` at item level (good enough for generated files)."""
-    spans = []
+    """[(fn name, first line, last line)]: an item-level `fn` spans up to the line before the next item-level fn
+    (good enough for the generated files: contracts, body and proof blocks all lie in that range)."""
     lines = text.split("\n")
-    i = 0
-    pat = re.compile(r"^\s*(?:pub(?:\([a-z]+\))?\s+)?(?:open |closed |broadcast )*(?:proof |exec |spec )?fn\s+([A-Za-z_0-9]+)")
-    while i < len(lines):
-        m = pat.match(lines[i])
-        if m and not lines[i].lstrip().startswith("//"):
-            depth, j, seen = 0, i, False
-            while j < len(lines):
-                s = re.sub(r"//.*", "", lines[j])
-                for ch in s:
-                    if ch == "{":
-                        depth += 1
-                        seen = True
-                    elif ch == "}":
-                        depth -= 1
-                if seen and depth <= 0:
-                    break
-                if not seen and s.rstrip().endswith(";"):
-                    break
-                j += 1
-            spans.append((m.group(1), i + 1, j + 1))
-            i = j + 1
-        else:
-            i += 1
+    pat = re.compile(r"^(?:    )?(?:pub(?:\([a-z]+\))?\s+)?(?:open |closed |broadcast |uninterp )*(?:proof |exec |spec )?fn\s+([A-Za-z_0-9]+)")
+    starts = [(m.group(1), i + 1) for i, l in enumerate(lines) for m in [pat.match(l)] if m]
+    spans = []
+    for k, (name, st) in enumerate(starts):
+        en = starts[k + 1][1] - 1 if k + 1 < len(starts) else len(lines)
+        spans.append((name, st, en))
     return spans
 
 
